@@ -65,7 +65,7 @@ FAMILIES = {
         rule='parallel handlers dispatching at interleaved times, nested awaits, forwarding of roots and children, explicit parents, event_bus reads; '
              'non-trivial: a handler instance dispatches'),
     'C10': dict(
-        gens=[('core', dict(p_timeout=0.6, proglen=(1, 6)), 0.5), ('chain', dict(p_timeout=1.0), 0.25),
+        gens=[('core', dict(p_timeout=0.6, proglen=(1, 6)), 0.5), ('chain', dict(p_timeout=1.0, p_selfparent=0.15), 0.25),
               ('chain', dict(p_timeout=1.0, p_await=0.95, min_depth=3, nb=(1, 1), maxh=(50,)), 0.25)],
         facets=CORE + ['timeout', 'results', 'signal', 'unfinished', 'lineage', 'await', 'lock'],
         rule='per-type timeouts (odd multiples of 1/128 s) against handler programs of sleeps (multiples of 1/64 s), nested awaits; serial buses; '
